@@ -15,6 +15,14 @@ package server
 //   S:<d ns>         sleep (virtual), then wait until the cleaner goroutines are idle again
 //   P:<k>            AuthFirstPacket(packet k)
 //   C:<k>:<n>        n goroutines present packet k simultaneously
+//   D:<k>:<n>        n presentations of packet k OVERLAPPING deterministically through the clock seam
+//                    (State.WorldState.Now is a function): the first presenter is parked inside the clock
+//                    read that registerRandom makes (in the unchanged code: while it holds usedRandomM,
+//                    between its lookup and its insertion); then the others are started one after the
+//                    other and each is watched until it has finished or waits for a lock (goroutine
+//                    states; no sleeping, the virtual clock does not move); then the first is released.
+//                    Observed like C; the line "#det <id> <op index> <pattern>" adds, per presenter,
+//                    P parked in the clock read | L waiting for a lock | F finished, before the release.
 // output line: <id> K:<parses>:<random hex>:<ts|->:<block hex|-> ... | <obs>/<cache size>@<abs ns> ...
 //   obs = s | a | r | o | c<accepted>,<replays>,<other>
 // The K tokens are the abstract view of each packet (model input): whether processFirstPacket
@@ -27,6 +35,9 @@ import (
 	"bufio"
 	"bytes"
 	"crypto"
+	"regexp"
+	"runtime"
+	"sync/atomic"
 	"encoding/base64"
 	"encoding/binary"
 	"encoding/hex"
@@ -132,6 +143,133 @@ func c08Present(sta *State, pkt []byte) string {
 	return c08Class(err)
 }
 
+// ---- the clock seam: park the caller of the next clock read made from inside registerRandom
+var c08SeamArmed atomic.Bool
+var c08SeamParked atomic.Bool
+var c08SeamParkedGoid atomic.Int64
+var c08SeamRelease = make(chan struct{})
+
+func c08SeamNow() time.Time {
+	if c08SeamArmed.Load() {
+		pcs := make([]uintptr, 16)
+		n := runtime.Callers(2, pcs)
+		frames := runtime.CallersFrames(pcs[:n])
+		inRegister := false
+		for {
+			fr, more := frames.Next()
+			if strings.HasSuffix(fr.Function, ".registerRandom") {
+				inRegister = true
+			}
+			if !more {
+				break
+			}
+		}
+		if inRegister && c08SeamArmed.CompareAndSwap(true, false) {
+			c08SeamParkedGoid.Store(c08Goid())
+			c08SeamParked.Store(true)
+			<-c08SeamRelease
+			c08SeamParked.Store(false)
+			c08SeamParkedGoid.Store(-1)
+		}
+	}
+	return time.Now()
+}
+
+var c08StatesRe = regexp.MustCompile(`(?m)^goroutine (\d+) \[([^\]]+)\]:`)
+var c08GoidRe = regexp.MustCompile(`^goroutine (\d+) \[`)
+var c08StackBuf = make([]byte, 1<<21)
+
+func c08Goid() int64 {
+	var buf [64]byte
+	n := runtime.Stack(buf[:], false)
+	m := c08GoidRe.FindSubmatch(buf[:n])
+	if m == nil {
+		return -1
+	}
+	id, _ := strconv.ParseInt(string(m[1]), 10, 64)
+	return id
+}
+
+func c08StateOf(goid int64) string {
+	n := runtime.Stack(c08StackBuf, true)
+	for _, m := range c08StatesRe.FindAllSubmatch(c08StackBuf[:n], -1) {
+		id, _ := strconv.ParseInt(string(m[1]), 10, 64)
+		if id == goid {
+			return string(m[2])
+		}
+	}
+	return ""
+}
+
+type c08Presenter struct {
+	goid atomic.Int64
+	done atomic.Bool
+	res  string
+}
+
+// watch: until the presenter has finished, is parked in the clock read (first only), or waits for a
+// lock, in two consecutive polls.  No sleeping: the virtual clock must not move.
+func c08Watch(p *c08Presenter, first bool) byte {
+	last := byte('?')
+	for iter := 0; iter < 3000000; iter++ {
+		cur := byte('?')
+		if p.done.Load() {
+			cur = 'F'
+		} else if id := p.goid.Load(); id >= 0 && c08SeamParked.Load() && c08SeamParkedGoid.Load() == id {
+			cur = 'P'
+		} else if id >= 0 {
+			st := c08StateOf(id)
+			if strings.Contains(st, "Mutex") || strings.HasPrefix(st, "semacquire") {
+				cur = 'L'
+			}
+		}
+		if cur != '?' && cur == last {
+			return cur
+		}
+		last = cur
+		runtime.Gosched()
+	}
+	return '?'
+}
+
+func c08Overlap(sta *State, pkt []byte, n int) (map[string]int, string) {
+	ps := make([]*c08Presenter, n)
+	start := func(i int) {
+		p := &c08Presenter{}
+		p.goid.Store(-1)
+		ps[i] = p
+		go func() {
+			p.goid.Store(c08Goid())
+			p.res = c08Present(sta, pkt)
+			p.done.Store(true)
+		}()
+	}
+	c08SeamArmed.Store(true)
+	start(0)
+	pattern := []byte{c08Watch(ps[0], true)}
+	for i := 1; i < n; i++ {
+		start(i)
+		pattern = append(pattern, c08Watch(ps[i], false))
+	}
+	c08SeamArmed.Store(false)
+	if c08SeamParked.Load() {
+		c08SeamRelease <- struct{}{}
+	}
+	cnt := map[string]int{}
+	for _, p := range ps {
+		for iter := 0; iter < 3000000 && !p.done.Load(); iter++ {
+			runtime.Gosched()
+		}
+		if p.done.Load() {
+			cnt[p.res]++
+		} else {
+			cnt["o"]++
+			pattern = append(pattern, '!')
+		}
+	}
+	return cnt, string(pattern)
+}
+
 func c08CacheSize(sta *State) int {
 	sta.usedRandomM.RLock()
 	defer sta.usedRandomM.RUnlock()
@@ -155,10 +293,10 @@ func c08RunCase(k *c08Keys, line string, w *bufio.Writer) {
 	rnd := rand.New(rand.NewSource(seed))
 	// the real State, as InitState leaves it for this property: empty cache, cleaner running
 	sta := &State{StaticPv: k.pv, UsedRandom: map[[32]byte]int64{}}
-	sta.WorldState = common.WorldState{Rand: rnd, Now: time.Now} // follows the bubble's virtual time
+	sta.WorldState = common.WorldState{Rand: rnd, Now: c08SeamNow} // follows the bubble's virtual time; the seam for D: tokens
 	go sta.UsedRandomCleaner()
 	var pkts [][]byte
-	var facts, obs []string
+	var facts, obs, dets []string
 	stamp := func(o string) {
 		obs = append(obs, fmt.Sprintf("%s/%d@%d", o, c08CacheSize(sta), time.Now().UnixNano()))
 	}
@@ -237,7 +375,16 @@ func c08RunCase(k *c08Keys, line string, w *bufio.Writer) {
 				cnt[r]++
 			}
 			stamp(fmt.Sprintf("c%d,%d,%d", cnt["a"], cnt["r"], cnt["o"]))
+		case "D":
+			ki, _ := strconv.Atoi(p[1])
+			n, _ := strconv.Atoi(p[2])
+			cnt, pattern := c08Overlap(sta, pkts[ki], n)
+			dets = append(dets, fmt.Sprintf("#det %s %d %s", fs[0], len(obs), pattern))
+			stamp(fmt.Sprintf("c%d,%d,%d", cnt["a"], cnt["r"], cnt["o"]))
 		}
+	}
+	for _, d := range dets {
+		w.WriteString(d + "\n")
 	}
 	w.WriteString(fs[0] + " " + strings.Join(facts, " ") + " | " + strings.Join(obs, " ") + "\n")
 }
